@@ -335,7 +335,7 @@ def main(tier):
                 v['confirmed'] = r['code'] == 0
                 if v['confirmed']:
                     v['replay'] = save_replay(PROP, role, {'a.py': b'x = 1\n'}, '-d line-count -e keep-sorted a.py', v['summary'], v)
-            else:
+            elif not v.get('main'):        # main-wiring violations were replayed by mainwire.add_to
                 confirm(binary, v, i)
             if v.get('confirmed'):
                 got = v
